@@ -1211,6 +1211,8 @@ def any(x, axis=None):
 
 def uf(name, args, extra=()):
     """Uninterpreted Float64-valued function of z3 terms `args` (plus hashable `extra`)."""
+    if builtins.all(z3.is_fp_value(z3.simplify(a)) or z3.is_fp_value(a) for a in args):
+        return _uf_concrete(name, [z3.simplify(a) for a in args], extra)
     c = symx.ctx()
     reg = c.notes.setdefault("uf", {})
     key = (name, len(args), tuple(a.sort().name() for a in args), tuple(extra))
@@ -1224,6 +1226,23 @@ def uf(name, args, extra=()):
         c.assume(z3.Implies(same, res == prev_res))
     apps.append((list(args), res))
     return res
+
+_UF_CACHE = {}
+
+def _uf_concrete(name, args, extra):
+    """all arguments are concrete: the uninterpreted reducer is the real NumPy function (asked from the replay server)"""
+    from . import run, symcodec
+    n_extra = 1 if name == "quantile" and not extra else 0
+    vals = args[:len(args) - n_extra] if n_extra else args
+    job = {"name": name, "values": {"l": [{"f": symcodec._f_hex(None, a)} for a in vals]}}
+    if name in ("std", "var"): job["ddof"] = int(extra[0]) if extra else 0
+    if name == "quantile":
+        job["q"] = {"f": symcodec._f_hex(None, args[-1])} if n_extra else {"f": symcodec._f_hex(None, fpval(extra[0]))}
+    key = repr(job)
+    if key not in _UF_CACHE:
+        r = run.replay("np_reduce", {"d": [[k, v] for k, v in job.items()]})
+        _UF_CACHE[key] = symcodec.dec_cell(r["out"]["f"], "f")
+    return _UF_CACHE[key]
 
 def _reducer(name, x, extra=(), extra_terms=()):
     if not isinstance(x, ndarray): x = array(x)
